@@ -3,6 +3,8 @@
 (/tmp/mut/<id>/) and the evaluation results (/tmp/mut/results.txt). Only verified candidates are kept."""
 import json, os, re, shutil, sys
 SRC = sys.argv[1] if len(sys.argv) > 1 else "/tmp/mut"
+# numbering offset: the second round's candidates 1,2 become <property>-3, <property>-4
+OFFSET = int(sys.argv[2]) if len(sys.argv) > 2 else 0
 DST = "/verif/seeded"
 verified = {}
 for l in open(os.path.join(SRC, "verify.log")):
@@ -17,7 +19,8 @@ for l in open(os.path.join(SRC, "results.txt")):
         results[(m.group(1), m.group(2))] = {"check": m.group(3), "exit_code": int(m.group(4)), "seconds": int(m.group(5)), "violation_key": key.group(1) if key else None}
 os.makedirs(DST, exist_ok=True)
 for (pid, k), suite in sorted(verified.items()):
-    d = os.path.join(DST, f"{pid}-{k}")
+    n = int(k) + OFFSET
+    d = os.path.join(DST, f"{pid}-{n}")
     os.makedirs(d, exist_ok=True)
     src = os.path.join(SRC, pid)
     override = os.path.join(SRC, pid, f"m{k}.rebased.diff")
@@ -31,14 +34,14 @@ for (pid, k), suite in sorted(verified.items()):
     files = re.findall(r"^\+\+\+ b/(\S+)", open(os.path.join(d, "patch.diff")).read(), re.M)
     r = results.get((pid, k))
     meta = {
-        "id": f"{pid}-{k}",
+        "id": f"{pid}-{n}",
         "property": pid,
-        "origin": "written by a sub-agent that was given only the property record and a scratch worktree of /repo",
+        "origin": "written by a sub-agent that was given only the property record and a scratch worktree of /repo" + ("" if OFFSET == 0 else " (second round: also told which two mechanisms had been used already)"),
         "files_changed": files,
         "demonstration": {"file": "demo.rs", "copy_to": ("avro_derive/tests/" if derive else "avro/tests/") + "demo.rs", "run": f"cargo test -p {'apache-avro-derive' if derive else 'apache-avro'} --test demo --offline"},
         "confirmed_in_scratch_worktree": {"demo_passes_on_unchanged_code": True, "demo_fails_with_patch": True, "existing_suite_with_patch": suite},
-        "apply": "git -C /repo apply /verif/seeded/%s-%s/patch.diff   (undo: git -C /repo checkout -- .)" % (pid, k),
-        "evaluation": ({"command": f"tools/seeded_run.sh seeded/{pid}-{k}/patch.diff quick {r['check']}", "detected": r["exit_code"] == 1, **r} if r else None),
+        "apply": "git -C /repo apply /verif/seeded/%s-%s/patch.diff   (undo: git -C /repo checkout -- .)" % (pid, n),
+        "evaluation": ({"command": f"tools/seeded_run.sh seeded/{pid}-{n}/patch.diff quick {r['check']}", "detected": r["exit_code"] == 1, **r} if r else None),
     }
     json.dump(meta, open(os.path.join(d, "meta.json"), "w"), indent=1)
     open(os.path.join(d, "meta.json"), "a").write("\n")
